@@ -1257,7 +1257,7 @@ def r_general_prov(model, rep):
     e = one("variant")
     mv = None
     if e:
-        v = e.value
+        v = T.phi_form(e.value)
         alts = list(v[1]) if v[0] == "phi" else [v]
         mvp = P("main_variant") if "main_variant" in cx.params else None
         first = [a for a in alts if a[0] == "sub" and a[2] == ("const", 0) and (vloc is None or (a[1][0] == "local" and T.same_local(a[1], vloc))
@@ -1265,13 +1265,13 @@ def r_general_prov(model, rep):
         ok = mvp is not None and mvp in alts and len(first) == 1 and len(alts) == 2
         if ok:
             binds = [ev for ev in cx.events if ev.kind == "bind" and ev.value == first[0]]
-            ok = len(binds) == 1 and binds[0].guards and binds[0].guards[-1] in (
-                (("cmp", ("is",), (mvp, ("const", None))), True), (("cmp", ("is not",), (mvp, ("const", None))), False))
+            ok = len(binds) == 1 and facts.canon_guards(facts.own_guards(cx, binds[0])) == frozenset(
+                [facts.canon_guard((("cmp", ("is",), (mvp, ("const", None))), True))])
             # the sort must precede taking element 0
             if ok and vloc is not None:
                 sorts = [ev for ev in cx.events if ev.kind == "call" and ev.value[1][0] == "attr" and ev.value[1][2] == "sort" and T.same_local(ev.value[1][1], vloc)]
                 ok = bool(sorts) and sorts[0].seq < binds[0].seq
-        mv = v
+        mv = e.value
         ob("variant", ok and not e.guards, "variant must be main_variant when given, else the first of the sorted top-level ids: %s" % T.show(v), e)
     for key, primary, fallback in (("packagedir", "packages", "source_packages"), ("repository", "repository", "source_repository")):
         es = E.get(key, [])
